@@ -13,7 +13,7 @@ LEVEL = 'exploration'
 DEPENDS = ['TidalPy/rheology', 'TidalPy/utilities/constants', 'TidalPy/utilities/math', 'TidalPy/utilities/classes']
 GROUP_ENV = {'default': {}, 'omp1': {'OMP_NUM_THREADS': '1'}, 'omp2': {'OMP_NUM_THREADS': '2'}, 'omp4': {'OMP_NUM_THREADS': '4'}, 'omp16': {'OMP_NUM_THREADS': '16'}}
 MIN_DECISIVE = {'quick': 100, 'thorough': 700}
-MIN_COUNTERS = {'quick': {'value_evaluations': 20000, 'omp_digests': 100, 'sanitized_array_calls': 50}, 'thorough': {'value_evaluations': 500000, 'omp_digests': 100, 'sanitized_array_calls': 200}}
+MIN_COUNTERS = {'quick': {'value_evaluations': 20000, 'omp_digests': 100, 'sanitized_array_calls': 50}, 'thorough': {'value_evaluations': 100000, 'omp_digests': 100, 'sanitized_array_calls': 200}}
 CASE_TIMEOUT = 900
 RULE = ('value/paths cases: (model, sub-seed) batches of 400 log-uniform draws of (frequency 1e-12..1e2, modulus 1e3..1e13, viscosity '
         '1..1e30, alpha, zeta, Voigt offsets) plus branch-boundary frequencies; omp cases: fixed workload per (model, array length) '
